@@ -346,7 +346,7 @@ def impl_attr_sanitize(a):
 
 def gen_attr_fields(rng, tier):
     for i, a in enumerate(gen_attr_decls(rng, tier)):
-        if i >= n_cases(tier, 110, 600):
+        if i >= n_cases(tier, 110, 400):
             break
         yield a
 
@@ -545,7 +545,7 @@ def gen_ns(rng, tier):
                     if "o" in prefixes:
                         decls.append({"attr": attr, "kind": "ref", "prefix": "o", "name": "ga" if attr else "g"})
                 yield {"ctx": ctx, "decls": decls}
-    for _ in range(n_cases(tier, 200, 4000)):
+    for _ in range(n_cases(tier, 200, 3000)):
         ctx = G.gen_ns_ctx(rng)
         decls = G.gen_ns_decls(rng, ctx)
         if decls:
@@ -583,7 +583,7 @@ def impl_ns_meta(a):
 
 def gen_ns_fields(rng, tier):
     for i, a in enumerate(gen_ns(rng, tier)):
-        if i >= n_cases(tier, 80, 900):
+        if i >= n_cases(tier, 80, 600):
             break
         yield a
 
@@ -700,7 +700,7 @@ def classify_subst(a, out):
 
 # ------------------------------------------------------------------ compound fields (Gen/Compound.lean)
 def gen_compound(rng, tier):
-    for p in particles(rng, n_cases(tier, 250, 5000), dup_share=0.4):
+    for p in particles(rng, n_cases(tier, 250, 3000), dup_share=0.4):
         try:
             sites = G.real_stage(G.real_xsd_sites(G.particle_xsd(p)), "all")
         except Exception:  # noqa: BLE001
